@@ -195,6 +195,17 @@ def random_worker(job):
                 os.utime(p_, ns=(max(0, now_ns - age2), max(0, now_ns - age)))
                 for j in range(rng.choice([0, 0, 0, 1, 3])):
                     os.link(p_, os.path.join(d, "f%02d_l%d" % (i, j)))
+            # entries that are not regular files (FIFO, socket, device nodes): their status record has a size like any other (0)
+            import socket as socket_
+            import stat as stat_
+            for nm_, mk in (("zfifo", lambda p_: os.mkfifo(p_)), ("zchr", lambda p_: os.mknod(p_, 0o600 | stat_.S_IFCHR, os.makedev(1, 3))),
+                            ("zblk", lambda p_: os.mknod(p_, 0o600 | stat_.S_IFBLK, os.makedev(7, 99))),
+                            ("zsock", lambda p_: socket_.socket(socket_.AF_UNIX).bind(p_))):
+                try:
+                    mk(os.path.join(d, nm_))
+                    st.inc("special_file_entries")
+                except OSError:
+                    st.inc("special_files_not_permitted")
             # a mount point below the starting point: its status record (inode number, link count, times) is that of the mounted
             # file system's root, not what the directory listing of d says
             import subprocess
